@@ -167,6 +167,8 @@ type vcase struct {
 
 const artifactRepo = "registry.verif.example/app/web"
 
+var repoSpellings = []string{artifactRepo, "Registry.Verif.Example/app/web", "registry.verif.example:5000/app/web", "REGISTRY.VERIF.EXAMPLE:443/app/web"}
+
 func artifactRef() string {
 	return artifactRepo + "@" + string(digestOf(digest.SHA256, []byte("manifest A")))
 }
@@ -221,6 +223,10 @@ func buildAndVerify(vc vcase) VObs {
 		sv = trustpolicy.SignatureVerification{VerificationLevel: "skip"}
 		stores, ids = nil, nil
 	}
+	// the repository under one of several spellings of its registry host (letter case, a port): the same string in the
+	// reference and - where a statement is scoped exactly - in its scope; scopes are compared as written
+	repoName := repoSpellings[(vc.capOrd+vc.sigMut+vc.baseIdx)%len(repoSpellings)]
+	repoRef := repoName + "@" + string(digestOf(digest.SHA256, []byte("manifest A")))
 	scope := "*"
 	if in.Sel == "nopolicy" {
 		scope = "registry.verif.example/another/repo"
@@ -239,11 +245,15 @@ func buildAndVerify(vc vcase) VObs {
 			// four layouts: the other statement is scoped to another repository or is the wildcard statement
 			// (then the applicable one is scoped exactly), and comes before or after the applicable one
 			layout := (vc.capOrd + 2*vc.baseIdx) % 4
+			if low := strings.ToLower(repoName); low != repoName {
+				// ... or to a repository whose name differs from this one by letter case only
+				other.RegistryScopes = []string{low}
+			}
 			if layout >= 2 {
 				other.RegistryScopes = []string{"*"}
-				ociDoc.TrustPolicies[0].RegistryScopes = []string{artifactRepo}
+				ociDoc.TrustPolicies[0].RegistryScopes = []string{repoName}
 			} else if layout == 1 {
-				ociDoc.TrustPolicies[0].RegistryScopes = []string{artifactRepo}
+				ociDoc.TrustPolicies[0].RegistryScopes = []string{repoName}
 			}
 			if layout%2 == 0 {
 				ociDoc.TrustPolicies = append(ociDoc.TrustPolicies, other)
@@ -359,11 +369,11 @@ func buildAndVerify(vc vcase) VObs {
 					_, _ = bv.VerifyBlob(ctx, func(digest.Algorithm) (ocispec.Descriptor, error) { return dd, nil }, decoy,
 						notation.BlobVerifierVerifyOptions{SignatureMediaType: mt, TrustPolicyName: "p"})
 				} else {
-					_, _ = v.Verify(ctx, dd, decoy, notation.VerifierVerifyOptions{ArtifactReference: artifactRef(), SignatureMediaType: mt})
+					_, _ = v.Verify(ctx, dd, decoy, notation.VerifierVerifyOptions{ArtifactReference: repoRef, SignatureMediaType: mt})
 				}
 			}
 			if in.API == "Verify" {
-				_, _ = v.Verify(ctx, dd, decoy, notation.VerifierVerifyOptions{ArtifactReference: artifactRef(), SignatureMediaType: mt})
+				_, _ = v.Verify(ctx, dd, decoy, notation.VerifierVerifyOptions{ArtifactReference: repoRef, SignatureMediaType: mt})
 			} else {
 				_, _ = bv.VerifyBlob(ctx, func(digest.Algorithm) (ocispec.Descriptor, error) { return dd, nil }, decoy,
 					notation.BlobVerifierVerifyOptions{SignatureMediaType: mt, TrustPolicyName: blobName})
@@ -373,7 +383,7 @@ func buildAndVerify(vc vcase) VObs {
 		if in.API == "Verify" {
 			desc := fx.presentedDesc(digest.SHA256)
 			outcome, verr = v.Verify(ctx, desc, env, notation.VerifierVerifyOptions{
-				ArtifactReference: artifactRef(), SignatureMediaType: mt, UserMetadata: required})
+				ArtifactReference: repoRef, SignatureMediaType: mt, UserMetadata: required})
 		} else {
 			gen := func(alg digest.Algorithm) (ocispec.Descriptor, error) {
 				if in.Desc.GenErr {
